@@ -181,7 +181,9 @@ class Driver:
     one build do not see each other's snoopy.ini."""
     _n = 0
 
-    def __init__(self, run, build, timeout_ms=20000, extra_preload=(), extra_env=None, san_opts=""):
+    def __init__(self, run, build, timeout_ms=20000, extra_preload=(), extra_env=None, san_opts="", binds=()):
+        # binds: (source, target) pairs bind-mounted inside the driver's private mount namespace: system files with generated content
+        self.binds = list(binds)
         self.run = run
         self.build = build
         Driver._n += 1
@@ -239,8 +241,10 @@ class Driver:
             os.close(c_r)
             os.close(r_w)
         self.errpath = os.path.join(self.run.dir, "drv-stderr-%d-%d.log" % (os.getpid(), Driver._n))
+        import shlex
+        extra = "".join("mount --bind %s %s && " % (shlex.quote(a), shlex.quote(b)) for a, b in getattr(self, "binds", ()))
         cmd = ["unshare", "-m", "--propagation", "private", "sh", "-c",
-               'mount --bind "$1" "$2" && shift 2 && exec "$@"', "sh", self.etc, self.run.etc,
+               'mount --bind "$1" "$2" && shift 2 && ' + extra + 'exec "$@"', "sh", self.etc, self.run.etc,
                os.path.join(BUILD, "execdrv")]
         self.p = subprocess.Popen(cmd, env=self.env, close_fds=False,
                                   preexec_fn=pre,
